@@ -5,7 +5,7 @@ Generated programs start with `from vp.prelude import *`.
 import dataclasses
 import enum
 import typing
-from typing import Any, Callable, Dict, FrozenSet, Iterable, List, Literal, Mapping, NewType, Optional, Sequence, Set, Tuple, Type, TypeVar, Union, Collection
+from typing import Any, Callable, Dict, FrozenSet, Generic, Iterable, List, Literal, Mapping, NewType, Optional, Sequence, Set, Tuple, Type, TypeVar, Union, Collection
 
 from typing_extensions import NotRequired, Protocol, Required, TypedDict, Unpack
 
@@ -89,11 +89,136 @@ class DC:
     y: str = "y"
 
 
+class NTup(typing.NamedTuple):
+    x: int
+    y: str
+
+
+class NPair(typing.NamedTuple):
+    x: int
+    y: int
+
+
 T = TypeVar("T")
 K = TypeVar("K")
 V = TypeVar("V")
 TA = TypeVar("TA", bound=A)
 TIS = TypeVar("TIS", int, str)
+
+
+K2 = TypeVar("K2")
+V2 = TypeVar("V2")
+
+
+# User-defined generic classes.  Each keeps, per OWN type parameter, an attribute declared with that parameter
+# (vp.ty.GEN_VIEWS reads them), and fills its base class's attributes exactly as its class header says.
+class GPair(Generic[K, V]):
+    def __init__(self, first: K, second: V) -> None:
+        self.first = first
+        self.second = second
+
+    def _key(self) -> tuple:
+        return (type(self).__name__, repr(self.first), repr(self.second))
+
+    def __repr__(self) -> str:
+        return f"{type(self).__name__}<{self.first!r}, {self.second!r}>"
+
+    def __eq__(self, other: object) -> bool:
+        return type(other) is type(self) and other._key() == self._key()  # type: ignore[attr-defined]
+
+    def __hash__(self) -> int:
+        return hash(self._key())
+
+
+class GSame(GPair[K, V]):
+    """Same TypeVar objects, same positions."""
+
+
+class GFlip(GPair[V, K], Generic[K, V]):
+    """Own parameters handed to the base in swapped positions, re-using the base's TypeVar objects."""
+
+    def __init__(self, a: K, b: V) -> None:
+        super().__init__(b, a)
+        self.a = a
+        self.b = b
+
+
+class GFlipFresh(GPair[V2, K2], Generic[K2, V2]):
+    """Alpha-renamed twin of GFlip (fresh TypeVar objects)."""
+
+    def __init__(self, a: K2, b: V2) -> None:
+        super().__init__(b, a)
+        self.a = a
+        self.b = b
+
+
+class GFlipSub(GFlip[V, K], Generic[K, V]):
+    """Swaps again: GFlipSub[X, Y] is a GFlip[Y, X] is a GPair[X, Y]."""
+
+    def __init__(self, p: K, q: V) -> None:
+        super().__init__(q, p)
+        self.p = p
+        self.q = q
+
+
+class GShift(GPair[V, int], Generic[K, V]):
+    """Second own parameter goes to the base's first position; the base's second is fixed."""
+
+    def __init__(self, a: K, b: V) -> None:
+        super().__init__(b, 0)
+        self.a = a
+        self.b = b
+
+
+class GShiftFresh(GPair[V2, int], Generic[K2, V2]):
+    def __init__(self, a: K2, b: V2) -> None:
+        super().__init__(b, 0)
+        self.a = a
+        self.b = b
+
+
+class GIntFirst(GPair[int, K], Generic[K]):
+    """The base's FIRST TypeVar object is the only own parameter and fills the base's SECOND position."""
+
+    def __init__(self, a: K) -> None:
+        super().__init__(0, a)
+        self.a = a
+
+
+class GDup(GPair[K, K], Generic[K]):
+    def __init__(self, a: K) -> None:
+        super().__init__(a, a)
+        self.a = a
+
+
+class GBox(Generic[T]):
+    def __init__(self, item: T) -> None:
+        self.item = item
+
+    def __repr__(self) -> str:
+        return f"{type(self).__name__}<{self.item!r}>"
+
+    def __eq__(self, other: object) -> bool:
+        return type(other) is type(self) and repr(other) == repr(self)
+
+    def __hash__(self) -> int:
+        return hash(repr(self))
+
+
+class GListBox(GBox[List[T]], Generic[T]):
+    """Own parameter used nested inside the base's argument."""
+
+    def __init__(self, a: T) -> None:
+        super().__init__([a])
+        self.a = a
+
+
+class GRevDict(Dict[V, K], Generic[K, V]):
+    """A dict whose KEYS have the second own parameter and whose VALUES have the first."""
+
+
+class GList(List[T]):
+    pass
 
 
 def ident(x: T) -> T:
